@@ -32,7 +32,7 @@ Honest(L) == [i \in 1..L |-> [by |-> i, key |-> i, ctx |-> "a", covers |-> L - i
 Ops == {"none", "transit", "mutbody", "mutsig", "wrongpeer", "replayold",
         "outerflip", "outersigflip", "stripouter",
         "innerflip", "innersigflip", "splicetime", "spliceorigin", "reattribute", "forgeknown", "duprec", "reorder",
-        "skipto", "claimdirect"}
+        "skipto", "claimdirect", "renew"}
 NeedsDepth(op) == op \in {"innerflip", "innersigflip", "splicetime", "spliceorigin", "reattribute", "forgeknown", "duprec", "reorder", "skipto"}
 
 (* The chain the victim receives and who delivers it, per operator.  `d` is the depth (2..L) of the     *)
@@ -59,6 +59,9 @@ Received(L, op, d) ==
                          ELSE IF i = d + 1 THEN Honest(L)[d] ELSE Honest(L)[i]]
     [] op = "skipto" -> <<Fresh1(L - d + 1)>> \o SubSeq(Honest(L), d, L)               \* own fresh record + genuine suffix
     [] op = "claimdirect" -> <<Fresh1(0)>>                                            \* own fresh record, nothing below
+    [] op = "renew" -> \* honest: the route is already installed from an earlier announcement whose outer record carried other
+                       \* labels / another delay (same total); this is the NEWER announcement with the forwarder's fresh record
+         [i \in 1..L |-> IF i = 1 THEN Fresh1(L - 1) ELSE Honest(L)[i]]
 
 Deliverer(L, op) == IF op = "wrongpeer" THEN OtherPeer ELSE IF L = 0 THEN Origin ELSE 1
 
@@ -92,7 +95,8 @@ Case(L, op, d, seen) ==
   /\ phase = "start" /\ phase' = "done"
   /\ (seen => op # "replayold")
   /\ (NeedsDepth(op) => d \in 2..L) /\ (~NeedsDepth(op) => d = 0)
-  /\ (op \in {"outerflip", "outersigflip", "stripouter", "claimdirect"} => L >= 1)
+  /\ (op \in {"outerflip", "outersigflip", "stripouter", "claimdirect", "renew"} => L >= 1)
+  /\ (op = "renew" => ~seen)
   /\ (op = "reorder" => d < L)
   /\ (op = "forgeknown" => d = 2)       \* directly below the adversary's own record: nothing else in the chain is disturbed
   /\ act' = [name |-> "case", len |-> L, op |-> op, depth |-> d, seen |-> seen,
